@@ -164,10 +164,34 @@ def _isolated_replay(args):
 
 
 def fresh(fn, args):
-    """Run fn(args) in a fresh fork of the (pristine) parent."""
-    ctx = multiprocessing.get_context('fork')
-    with ctx.Pool(1, maxtasksperchild=1) as pool:
-        return pool.apply(fn, (args,))
+    """Run fn(args) in a fresh fork of the current process (plain os.fork, so it also works inside pool workers)."""
+    import pickle
+    r, w = os.pipe()
+    pid = os.fork()
+    if pid == 0:
+        code = 0
+        try:
+            os.close(r)
+            try:
+                payload = pickle.dumps(('ok', fn(args)))
+            except BaseException:   # noqa
+                payload = pickle.dumps(('err', traceback.format_exc()[-3000:]))
+            with os.fdopen(w, 'wb') as fh:
+                fh.write(payload)
+        except BaseException:   # noqa
+            code = 1
+        finally:
+            os._exit(code)
+    os.close(w)
+    with os.fdopen(r, 'rb') as fh:
+        data = fh.read()
+    os.waitpid(pid, 0)
+    if not data:
+        return dict(died='child produced no result')
+    kind, val = pickle.loads(data)
+    if kind == 'err':
+        return dict(died=val)
+    return val
 
 
 # ---------------------------------------------------------------- known findings
@@ -188,41 +212,55 @@ def match_known(known, class_key):
 
 
 # ---------------------------------------------------------------- driver
-def explore(mod, tier, seed, nproc):
-    t0 = time.time()
-    modname = mod.__name__
-    plan = mod.plan(tier, seed)
-    shards = plan['shards']
+def gather(modname, shards, tier, seed, nproc, agg=None, worker=None):
+    """Run shards in forked workers (one process per shard) and merge their accumulators."""
     order = list(range(len(shards)))
     if seed:   # seed only permutes dispatch order (a don't-care dimension)
         import random
         random.Random(seed).shuffle(order)
     mp = multiprocessing.get_context('fork')
-    agg = Acc()
+    agg = agg or Acc()
     died = []
-    nviols = 0
+    if not shards:
+        return agg, died
     with mp.Pool(min(nproc, max(1, len(shards))), maxtasksperchild=1) as pool:
         jobs = [(modname, shards[i], tier, seed, False) for i in order]
-        for res in pool.imap_unordered(_worker, jobs, chunksize=1):
-            if 'died' in res:
-                died.append(res['died'])
-                continue
-            agg.n += res['n']
-            agg.nontrivial.update(res['nontrivial'])
-            agg.nontrivial_n += res['nontrivial_n']
-            agg.outcomes.update(res['outcomes'])
-            agg.viols.extend(res['viols'])
-            nviols += res['nviols']
-            for s in res['samples']:
-                if len(agg.samples) < 4:
-                    agg.samples.append(s)
-            agg.skipped += res['skipped']
-            for k_, v_ in res['extra'].items():
-                if k_.startswith('max_'):
-                    agg.extra[k_] = max(agg.extra[k_], v_)
-                else:
-                    agg.extra[k_] += v_
-            agg.notes.extend(res['notes'])
+        for res in pool.imap_unordered(worker or _worker, jobs, chunksize=1):
+            merge(agg, res, died)
+    return agg, died
+
+
+def merge(agg, res, died):
+    if 'died' in res:
+        died.append(res['died'])
+        return
+    agg.n += res['n']
+    agg.nontrivial.update(res['nontrivial'])
+    agg.nontrivial_n += res['nontrivial_n']
+    agg.outcomes.update(res['outcomes'])
+    agg.viols.extend(res['viols'])
+    for s in res['samples']:
+        if len(agg.samples) < 4:
+            agg.samples.append(s)
+    agg.skipped += res['skipped']
+    for k_, v_ in res['extra'].items():
+        if k_.startswith('max_'):
+            agg.extra[k_] = max(agg.extra[k_], v_)
+        else:
+            agg.extra[k_] += v_
+    agg.notes.extend(res['notes'])
+
+
+def explore(mod, tier, seed, nproc):
+    t0 = time.time()
+    modname = mod.__name__
+    if hasattr(mod, 'drive'):   # checks with their own search loop (explicit-state BFS) built on gather()/fresh()
+        plan, agg, died = mod.drive(tier, seed, nproc)
+        shards = plan['shards']
+    else:
+        plan = mod.plan(tier, seed)
+        shards = plan['shards']
+        agg, died = gather(modname, shards, tier, seed, nproc)
     # ---- confirm candidates in isolation, classify
     known = load_known(mod.ID)
     byclass = collections.OrderedDict()
